@@ -231,13 +231,13 @@ where
         if let Some((st, _)) = run.replay_target(&config, "cast_from_char") {
             let c = char::from_u32(st[0].parse().unwrap()).unwrap();
             let e: Expect<Z> = Expect::Is(Obs::V(T::ti().wrap(&big(c as u32 as i128))));
-            let o = Obs::V(T::cast_from(c).z::<Z>());
+            let o = vengine::guard(|| Obs::V(T::cast_from(c).z::<Z>()));
             run.replay_verdict(&e, &o);
         }
         if let Some((st, _)) = run.replay_target(&config, "cast_from_bool") {
             let b = st[0] == "true";
             let e: Expect<Z> = Expect::Is(Obs::V(T::ti().wrap(&big(b as i128))));
-            let o = Obs::V(T::cast_from(b).z::<Z>());
+            let o = vengine::guard(|| Obs::V(T::cast_from(b).z::<Z>()));
             run.replay_verdict(&e, &o);
         }
         return;
@@ -248,7 +248,7 @@ where
     let mut l = Local::default();
     for b in [false, true] {
         let e: Expect<Z> = Expect::Is(Obs::V(T::ti().wrap(&big(b as i128))));
-        let o = Obs::V(T::cast_from(b).z::<Z>());
+        let o = vengine::guard(|| Obs::V(T::cast_from(b).z::<Z>()));
         l.check(&config, "cast_from_bool", || vec![b.to_string()], 0, &e, &o);
     }
     run.merge(&config, "values", "cast_from_bool", 2, l);
@@ -256,7 +256,7 @@ where
     let mut l = Local::default();
     for c in &cs {
         let e: Expect<Z> = Expect::Is(Obs::V(T::ti().wrap(&big(*c as u32 as i128))));
-        let o = Obs::V(T::cast_from(*c).z::<Z>());
+        let o = vengine::guard(|| Obs::V(T::cast_from(*c).z::<Z>()));
         l.check(&config, "cast_from_char", || vec![(*c as u32).to_string()], 0, &e, &o);
     }
     run.merge(&config, "values", "cast_from_char", cs.len() as u64, l);
@@ -271,7 +271,7 @@ macro_rules! digits_engine {
             use bnum::{$BInt, $BUint};
             let config = <$BUint<N> as Subj>::type_name();
             let op = "digit_array_layout";
-            let one = |bytes: &[u8]| -> (Expect<Z>, Obs<Z>) {
+            let one_raw = |bytes: &[u8]| -> Obs<Z> {
                 let db = $w / 8;
                 let mut d = [0 as $Digit; N];
                 for i in 0..N {
@@ -295,7 +295,10 @@ macro_rules! digits_engine {
                 // the signed type shares the digit array through from_bits / to_bits
                 let s = $BInt::<N>::from_bits(x);
                 ok &= s.to_bits().digits() == &d;
-                (Expect::Is(Obs::B(true)), Obs::B(ok))
+                Obs::B(ok)
+            };
+            let one = |bytes: &[u8]| -> (Expect<Z>, Obs<Z>) {
+                (Expect::Is(Obs::B(true)), vengine::guard(|| one_raw(bytes)))
             };
             if let Some((st, _)) = run.replay_target(&config, op) {
                 let (e, o) = one(&unhex(&st[0]));
@@ -336,7 +339,7 @@ pub fn from_bool<T: Subj + From<bool>>(run: &mut Run) {
     if let Some((st, _)) = run.replay_target(&config, op) {
         let b = st[0] == "true";
         let e: Expect<Z> = Expect::Is(Obs::V(big(b as i128)));
-        run.replay_verdict(&e, &Obs::V(T::from(b).z::<Z>()));
+        run.replay_verdict(&e, &vengine::guard(|| Obs::V(T::from(b).z::<Z>())));
         return;
     }
     if run.in_replay() || !run.wants_prefix(&config) {
@@ -345,7 +348,7 @@ pub fn from_bool<T: Subj + From<bool>>(run: &mut Run) {
     let mut l = Local::default();
     for b in [false, true] {
         let e: Expect<Z> = Expect::Is(Obs::V(big(b as i128)));
-        l.check(&config, op, || vec![b.to_string()], 0, &e, &Obs::V(T::from(b).z::<Z>()));
+        l.check(&config, op, || vec![b.to_string()], 0, &e, &vengine::guard(|| Obs::V(T::from(b).z::<Z>())));
     }
     run.merge(&config, "values", op, 2, l);
 }
@@ -359,7 +362,7 @@ pub fn from_char<T: Subj + From<char>>(run: &mut Run) {
     if let Some((st, _)) = run.replay_target(&config, op) {
         let c = char::from_u32(st[0].parse().unwrap()).unwrap();
         let e: Expect<Z> = Expect::Is(Obs::V(big(c as u32 as i128)));
-        run.replay_verdict(&e, &Obs::V(T::from(c).z::<Z>()));
+        run.replay_verdict(&e, &vengine::guard(|| Obs::V(T::from(c).z::<Z>())));
         return;
     }
     if run.in_replay() || !run.wants_prefix(&config) {
@@ -369,7 +372,7 @@ pub fn from_char<T: Subj + From<char>>(run: &mut Run) {
     let mut l = Local::default();
     for c in &cs {
         let e: Expect<Z> = Expect::Is(Obs::V(big(*c as u32 as i128)));
-        l.check(&config, op, || vec![(*c as u32).to_string()], 0, &e, &Obs::V(T::from(*c).z::<Z>()));
+        l.check(&config, op, || vec![(*c as u32).to_string()], 0, &e, &vengine::guard(|| Obs::V(T::from(*c).z::<Z>())));
     }
     run.merge(&config, "values", op, cs.len() as u64, l);
 }
